@@ -23,23 +23,26 @@ M = 4
 PID = "C71"
 KINDS = ["g1", "r1", "g2", "r2", "g3", "p3", "u2", "mrz", "prot", "gph", "adj", "pow", "ctrl"]
 INVS = ["SnapEqualsPrefix", "FinalUnchanged", "KeysDistinct"]
+SIM = {"quick": 120, "thorough": 1500}       # simulated layouts per tier
 
 
 def generate(tier, seed):
-    runs = [("ex", dict(MaxGates=2, MaxSnaps=2, Kinds='{"state", "expval", "probs"}', ShOpts='{"workflow"}'), None)]
+    allk = '{"state", "expval", "probs"}'
     if tier == "quick":
-        runs.append(("sim", dict(MaxGates=5, MaxSnaps=3, Kinds='{"state", "expval", "probs"}', ShOpts='{"workflow", "none"}'), 120))
+        runs = [("ex", dict(MaxGates=2, MaxSnaps=2, Kinds=allk, ShOpts='{"workflow"}'), None),
+                ("sim", dict(MaxGates=5, MaxSnaps=3, Kinds=allk, ShOpts='{"workflow", "none"}'), SIM[tier])]
     else:
-        runs = [("ex", dict(MaxGates=3, MaxSnaps=3, Kinds='{"state", "expval", "probs"}', ShOpts='{"workflow"}'), None),
-                ("sim", dict(MaxGates=6, MaxSnaps=3, Kinds='{"state", "expval", "probs"}', ShOpts='{"workflow", "none"}'), 3000)]
-    progs, st = [], {"generated": 0, "distinct": 0, "runs": 0}
+        runs = [("ex", dict(MaxGates=4, MaxSnaps=2, Kinds=allk, ShOpts='{"workflow"}'), None),
+                ("ex3", dict(MaxGates=2, MaxSnaps=3, Kinds=allk, ShOpts='{"workflow"}'), None),
+                ("sim", dict(MaxGates=6, MaxSnaps=3, Kinds=allk, ShOpts='{"workflow", "none"}'), SIM[tier])]
+    progs, st, seen = [], {"generated": 0, "distinct": 0, "runs": 0}, set()
     for name, consts, nsim in runs:
+        n0 = len(seen)
         kw = dict(simulate=f"num={nsim}", depth=40, seed=seed + 5, workers=1) if nsim else {}
         r = lib.run_tlc("SnapshotGen", lib.cfg(constants=consts, invariants=INVS), lib.workdir(PID, "gen_" + name), **kw)
         lib.require_ok(r, f"SnapshotGen {name}")
         if r.invariant_violated:
             raise lib.MachineryError(f"Snapshots.tla violates its own invariant {r.invariant_violated}")
-        seen = set()
         for p in r.json_lines:
             key = repr(p["prog"])
             if key not in seen:
@@ -49,7 +52,7 @@ def generate(tier, seed):
         st["generated"] += r.generated
         st["distinct"] += r.distinct
         st["runs"] += 1
-        st[name] = len(seen)
+        st[name] = len(seen) - n0
     # negative control of the model: the rule "index among the UNTAGGED snapshots" is a different dictionary
     neg = lib.run_tlc("SnapshotGen", lib.cfg(constants=runs[0][1], invariants=["NegIndexAmongUntagged"]), lib.workdir(PID, "gen_neg"))
     if neg.invariant_violated != "NegIndexAmongUntagged":
@@ -226,8 +229,8 @@ def run(tier, seed):
     cov = {"states": gstats["distinct"] + tstats["distinct"], "transitions": gstats["generated"] + tstats["generated"],
            "traces_validated_against_impl": n_exec, "evaluations": n_cmp, "distinct_nontrivial": len(nontriv),
            "rule": "non-trivial = distinct (program, snapshot, execution path) whose snapshot value was compared with TLC's exact prefix value; "
-                   "programs: ALL layouts of <=2 gate blocks and <=2 snapshots (tag/no tag x state/expval/probs) + simulated layouts up to "
-                   "5 blocks / 3 snapshots, each instantiated with seeded blocks of 1-3 gates on 1-4 labelled wires",
+                   "programs: ALL layouts up to the tier's bound (quick: <=2 gate blocks, <=2 snapshots; tag/no tag x state/expval/probs) + "
+                   "simulated layouts up to 5-6 blocks / 3 snapshots, each instantiated with seeded blocks of 1-3 gates on 1-4 labelled wires",
            "samples": samples, "exhaustive": False, "exhaustive_part": "snapshot layouts up to the bound (gate blocks are sampled)",
            "programs": len(progs), "generator": {k: v for k, v in gstats.items() if k not in ("generated", "distinct")},
            "executions_per_path": per_path, "snapshot_kinds": mk_count, "snapshots_differing_from_final_state": moved,
